@@ -115,7 +115,7 @@ func main() {
 						lowerWL, _, _, _ = bounds(st.frames, ends, cut-1)
 					}
 					headerCutNoMsg := strings.HasPrefix(where, "inside-header") && len(lower) == len(upper) && !openAt(st.frames, ends, cut)
-					for _, kind := range []string{"EOF", "error", "error-with-last-bytes"} {
+					for _, kind := range []string{"EOF", "error", "error-with-last-bytes", "EOF-with-last-bytes"} {
 						for _, d := range ds {
 							cut, kind, d := cut, kind, d
 							t.Do(func() string {
@@ -123,10 +123,10 @@ func main() {
 							}, func() *explore.Fail {
 								src := env.NewSrc(data)
 								src.Cut = cut
-								if kind != "EOF" {
+								if kind == "error" || kind == "error-with-last-bytes" {
 									src.EndErr = env.ErrInjected
 								}
-								src.WithLast = kind == "error-with-last-bytes"
+								src.WithLast = strings.HasSuffix(kind, "-with-last-bytes")
 								var res drivers.Result
 								d.Run(src, st.side, drivers.Cfg{}, &res)
 								cls := d.Name + ":" + where + ":" + kind
@@ -138,7 +138,7 @@ func main() {
 									got = append(got, e)
 								}
 								lo, up := d.Expect(lower), d.Expect(upper)
-								if kind == "error-with-last-bytes" {
+								if strings.HasSuffix(kind, "-with-last-bytes") {
 									lo = d.Expect(lowerWL)
 								}
 								if d.Name == "NextReader" {
@@ -158,8 +158,9 @@ func main() {
 								if res.Err == nil {
 									return explore.Failf("no-error:"+cls, "")
 								}
-								if res.Err == io.EOF && !(clean && kind == "EOF") {
-									if headerCutNoMsg && kind == "EOF" {
+								eofKind := kind == "EOF" || kind == "EOF-with-last-bytes"
+								if res.Err == io.EOF && !(clean && eofKind) {
+									if headerCutNoMsg && eofKind {
 										// A stream that ends inside a frame header while no message is open
 										// delivers nothing of that frame and returns an error value (io.EOF):
 										// the statement requires non-EOF only for cut payloads and for cuts
@@ -356,10 +357,10 @@ func main() {
 											return explore.Failf("dest-called-after-failure", "%s reached the destination after it failed", o)
 										}
 										_ = callsBefore
-										if wasFailed && obs.Err == "" && o.Kind != "Grow" && o.Kind != "ReadFrom" {
+										if wasFailed && obs.Err == "" && o.Kind != "Grow" && o.Kind != "ReadFrom" && o.Kind != "ReadFromErr" {
 											return explore.Failf("later-call-succeeds-after-failure:"+o.Kind, "%s returned nil after the destination failed", o)
 										}
-										if !wasFailed && d.Failed && obs.Err == "" && o.Kind != "Grow" {
+										if !wasFailed && d.Failed && obs.Err == "" && o.Kind != "Grow" && o.Kind != "ReadFromErr" {
 											return explore.Failf("failing-call-reports-nil:"+o.Kind, "%s returned nil although the destination failed during it", o)
 										}
 									}
